@@ -98,7 +98,7 @@ def make_scene(case, name):
             if m.sum() > n - 2:
                 m[:] = False
             pts[m] = np.nan
-            P.append(np.round(pts * 4) / 4)
+            P.append(pts)  # general position (no rounding: an exact half-cell tie is a plateau, not a strict maximum)
         poses[(0, f)] = P
     if not any(poses.values()) or not any(len(p) for p in poses.values()):
         return None
